@@ -104,7 +104,7 @@ func cmdVerify(args []string) {
 				}
 			default:
 				nf++
-				fmt.Printf("   %-8s %s  [%s] %s %dms\n      file %s\n", strings.ToUpper(v.Status), v.Obl.Name, v.Obl.Src, v.Solver, v.Ms, v.File)
+				fmt.Printf("   %-8s %s  [%s] %s %s %dms\n      file %s\n", strings.ToUpper(v.Status), v.Obl.Name, v.Obl.Src, v.Obl.Pos, v.Solver, v.Ms, v.File)
 			}
 		}
 		fmt.Printf("%s: %d obligations, %d ok, %d not ok (gen %.2fs, total %.2fs, script %d lines)\n", k, len(vs), nd, nf, 0.0, time.Since(t1).Seconds(), g.sc.Len())
